@@ -24,6 +24,12 @@ def jobs():
             defines={'MAXN': 12}, thorough_defines={'MAXN': 48}, reach=['valid', 'invalid'], min_obligations=5,
             clauses=['accepted <=> non-NULL, start rule ("_"+1 more / non-empty), code point count <= 2048 (names) / 2043 (codes), '
                      'no whitespace, no disallowed character'], trusted=[ICU], timeout=600),
+        Job('cif_normalize_pipeline', 'utils_h.c', entry='harness_cif_normalize', enforce='cif_normalize', tus=T,
+            replace=['cif_unicode_normalize', 'cif_fold_case'], defines={'MAXN': 8}, flags=['--memory-leak-check'],
+            reach=['normalized', 'normalize-failed'], min_obligations=10, timeout=600, replay=False,
+            trusted=['contracts of cif_unicode_normalize (enforced in C17) and cif_fold_case (assumed: fresh buffer or error)'],
+            clauses=['normalised form = NFC(casefold(NFD(name))) in exactly that order, terminated', 'intermediate buffers freed on every path',
+                     'failure leaves *normalized untouched']),
     ]
 
 
